@@ -37,6 +37,17 @@ impl RmdirResultExt for Result<(), Error> {
 //@prove utils.dir.ignore_enoent
 }
 //@prove utils.dir.remove_inode
+/// R18: the recursive `remove_all(&subdir, name)` of the scan loop, with a ghost record of the children whose removal failed
+/// with something else than ENOENT (same contract as `remove_all` itself, see contracts/utils.dir.remove_all.spec)
+#[verifier::external_body]
+pub fn remove_all_child<Fd: AsFd>(dirfd: Fd, name: &Path, failed: &mut Ghost<int>) -> (r: Result<(), Error>)
+    requires
+        lineage(dirfd.fd_id()),            // [C03+C13.remove_all.dir_in_root]
+        name@.len() > 0,                   // [C05.remove_all.nonempty_name]
+    ensures
+        r matches Err(e) ==> e.errno_spec() != Some(libc::ENOENT),
+        final(failed)@ == old(failed)@ + (if r is Err { 1int } else { 0int }),
+{ unimplemented!() }
 //@prove utils.dir.remove_all
 
 } // verus!
